@@ -134,11 +134,13 @@ func TestC06(t *testing.T) {
 		n = rec.N(1500, 100000)
 	}
 	done := 0
-	rec.Suite("histories", n, func(c *ev.Case) {
+	history := func(c *ev.Case) {
 		r := c.R
 		// a counter of this child's own cases (c.I only takes the values of this batch)
-		if done++; done%1000 == 0 && !rec.Race() {
-			runtime.GC()
+		if c.Suite == "histories" {
+			if done++; done%1000 == 0 && !rec.Race() {
+				runtime.GC()
+			}
 		}
 		big := r.IntN(4) == 0
 		base := c06Tree(c, big)
@@ -293,6 +295,19 @@ func TestC06(t *testing.T) {
 		c.Event("later_reads", k-1)
 		if c.WantSample() && !big {
 			c.Sample(map[string]any{"retained": refcodec.Describe(base), "later_messages": k - 1, "mode": mode})
+		}
+	}
+	rec.Suite("histories", n, history)
+	// the same histories on four goroutines at once (several connections keep messages while the
+	// others go on receiving): what one reader returned must not be touched by another's reads
+	rec.Suite("parallel-histories", n/8, func(c *ev.Case) {
+		inParallel(rec, c, 4, func(gc *ev.Case, g int) {
+			for k := 0; k < 3 && !gc.Failed(); k++ {
+				history(gc)
+			}
+		})
+		if c.I%64 == 0 && !rec.Race() {
+			runtime.GC()
 		}
 	})
 
